@@ -301,7 +301,10 @@ def py_oracle(lead, obj, trail, key, off):
 # running
 
 def _build(ctx, sub):
-    exe, err = vlib.build_c("drv_json_asan", "drv_json.c", ["util/json.c"], asan=True)
+    # -fno-builtin-memcmp: gcc otherwise folds memcmp(buf, "null", 4) into one unchecked 32-bit load,
+    # hiding an over-read of the literal tests from ASan; as a call it goes through ASan's interceptor
+    exe, err = vlib.build_c("drv_json_asan", "drv_json.c", ["util/json.c"], asan=True,
+                            cflags=["-fno-builtin-memcmp", "-fno-builtin-strchr"])
     if not exe:
         ctx.fail(sub, "build", "", "C driver does not build: " + err)
         return None, None
@@ -364,7 +367,15 @@ def _run_impl(ctx, sub, exe, cases):
     for i in todo:
         out[i] = "<not-run>"
     ctx.count(sub + ".sanitizer_reports", reports)
+    if todo:
+        ctx.count(sub + ".not_run_after_many_sanitizer_stops", len(todo))
     return out
+
+
+def _drop_not_run(cases, impl, *others):
+    """Cases the ASan build never reached (too many sanitizer stops before them) are left out of the comparison."""
+    keep = [i for i, a in enumerate(impl) if a != "<not-run>"]
+    return [[x[i] for i in keep] for x in (cases, impl) + others]
 
 
 # ----------------------------------------------------------------------------------------------
@@ -427,10 +438,38 @@ def check_json_find(ctx):
                 ctx.count("json.find.python_json_validated")
             if e:
                 ctx.fail(sub, "tie", c, e)
-    corpus = [c for c in _corpus() if c.startswith("find ")]
     impl = _run_impl(ctx, sub, exe, cases)
     model, _ = vlib.run_sharded(mexe, cases)
     spec, _ = vlib.run_sharded(mexe, specs)
+    # the spec's validity predicates against Python's json: every document is wf; rfc_valid <=> Python accepts
+    info, _ = vlib.run_sharded(mexe, ["specinfo " + sp.split()[-1] for sp in specs])
+    nbad = 0
+    for (lead, obj, trail, key, strict), inf in zip(docs, info):
+        text = lead + render(obj)
+        problem = None
+        if "wf=1" not in inf:
+            problem = "generated document is not wf for the Coq spec: " + inf
+        elif strict and "rfc=1" not in inf:
+            problem = "strict document is not rfc_valid for the Coq spec: " + inf
+        else:
+            try:
+                t = text.decode("utf-8")
+                try:
+                    pyjson.loads(t)
+                    py = True
+                except ValueError:
+                    py = False
+                ctx.count("json.find.rfc_valid_vs_python_" + ("accept" if py else "reject"))
+                if py != ("rfc=1" in inf):
+                    problem = "rfc_valid (%s) disagrees with Python json (%s)" % (inf, "accepts" if py else "rejects")
+            except UnicodeDecodeError:
+                pass
+        if problem:
+            nbad += 1
+            if nbad <= 3:
+                ctx.fail(sub, "tie", "specinfo " + hx(text), problem)
+    docs = None
+    cases, impl, model, spec, want = _drop_not_run(cases, impl, model, spec, want)
     # the Coq spec and the generator's bookkeeping must agree (else the spec side is not what we think)
     bad = [(c, s, w) for c, s, w in zip(cases, spec, want) if s != w]
     for c, s, w in bad[:3]:
@@ -528,6 +567,7 @@ def check_json_safety(ctx):
     ctx.count("json.safety.corpus", len(corpus))
     impl = _run_impl(ctx, sub, exe, cases)
     model, _ = vlib.run_sharded(mexe, cases)
+    cases, impl, model = _drop_not_run(cases, impl, model)
     # the contract: an offset in [0, len]
     nbad = 0
     for c, a in zip(cases, impl):
